@@ -231,4 +231,32 @@ theorem adjacency_le_one (D : Nat → Nat → Nat) (hD : ∀ i j, D i j ≤ 1) (
   have := hD i j; have := hD j i
   split <;> split <;> omega
 
+/-! ### `rand_F2` -/
+
+theorem f2Result_spec (nz no : Bool) : ∀ (draws : List (List Nat)) (r : List Nat) (k : Nat),
+    f2Result nz no draws = some (r, k) →
+      f2Rejected nz no r = false ∧ 1 ≤ k ∧ draws[k - 1]? = some r ∧ ∀ j, j < k - 1 → ∃ x, draws[j]? = some x ∧ f2Rejected nz no x = true := by
+  intro draws
+  induction draws with
+  | nil => intro r k h; simp [f2Result] at h
+  | cons x rest ih =>
+    intro r k h
+    by_cases hx : f2Rejected nz no x = true
+    · simp only [f2Result, hx, if_true, Option.map_eq_some_iff] at h
+      obtain ⟨⟨r', k'⟩, h', he⟩ := h
+      simp only [Prod.mk.injEq] at he
+      obtain ⟨rfl, rfl⟩ := he
+      obtain ⟨a1, a2, a3, a4⟩ := ih r' k' h'
+      refine ⟨a1, by omega, ?_, ?_⟩
+      · have : k' + 1 - 1 = (k' - 1) + 1 := by omega
+        rw [this, List.getElem?_cons_succ]; exact a3
+      · intro j hj
+        cases j with
+        | zero => exact ⟨x, by simp, hx⟩
+        | succ j => rw [List.getElem?_cons_succ]; exact a4 j (by omega)
+    · have hx' : f2Rejected nz no x = false := by simpa using hx
+      simp only [f2Result, hx', Bool.false_eq_true, if_false, Option.some.injEq, Prod.mk.injEq] at h
+      obtain ⟨rfl, rfl⟩ := h
+      exact ⟨hx', le_refl _, by simp, by intro j hj; omega⟩
+
 end Numqi.RandNorm
